@@ -290,6 +290,60 @@ class P:
                             viol.append({"cases": [], "verdict": "cache file %s left by the collector is not complete / loadable: %s" % (f, e)}); break
                     if viol:
                         break
+                # 4. a LARGE cache (thorough tier, and whenever an obligation of this property is broken: failing-input search): the
+                # dump at shutdown then takes longer than a second; the file must still be complete and every acknowledged template
+                # must survive ("whatever traffic is in flight", whatever the cache holds)
+                if not viol and acked and (tier != "quick" or getattr(self, "broken", None)) and run == 0:
+                    n_cycles += 1
+                    ok = col.start()
+                    if ok:
+                        from props.flowgen import Tpl
+                        g = gens["ipfix"]
+                        base, _ = g.rand_tpl(tid=256, opts=False, nfields=20, allow_var=False)
+                        sock = {}
+                        sent = 0
+                        for e in range(250):
+                            ip = "127.%d.%d.%d" % (1 + e // 200, 1 + (e // 14) % 200, 2 + e % 14)
+                            s_ = socket.socket(socket.AF_INET, socket.SOCK_DGRAM); s_.bind((ip, 0))
+                            for b0 in range(0, 400, 16):
+                                sets = [g.enc_set(2, b"".join(g.enc_tpl(Tpl(1000 + b0 + j, [], base.fields), False) for j in range(16)))]
+                                s_.sendto(g.enc_msg(sets), ("127.0.0.1", col.ports["ipfix"])); sent += 1
+                                if sent % 8 == 0:
+                                    time.sleep(0.001)
+                            s_.close()
+                        # one more ordinary announcement, acknowledged after the bulk
+                        t, o = g.rand_tpl(tid=301, allow_var=False, opts=False, nfields=3)
+                        dmsg, pub = announce("ipfix", "127.0.0.9", t, o)
+                        if pub is not None:
+                            acked[("ipfix", "127.0.0.9", 301)] = (dmsg, pub)
+                        time.sleep(0.5)
+                        rc, lat, err = col.stop(signal.SIGTERM)
+                        size = os.path.getsize(os.path.join(d, "ipfix.cache")) if os.path.exists(os.path.join(d, "ipfix.cache")) else -1
+                        log.append({"cycle": "large-cache", "mode": "bulk %d template datagrams" % sent, "signal": "SIGTERM", "exit": rc, "latency_s": round(lat, 2),
+                                    "acked_templates": len(acked), "cache_file_octets": size})
+                        if rc != 0 or "panic" in err or "fatal error" in err:
+                            viol.append({"cases": [], "verdict": "collector exited with status %s on SIGTERM with a large template cache" % rc, "stderr_tail": err[-800:]})
+                        elif lat > 12.0:
+                            viol.append({"cases": [], "verdict": "collector took %.1f s to exit on SIGTERM with a large template cache" % lat})
+                        else:
+                            try:
+                                dj = json.load(open(os.path.join(d, "ipfix.cache")))
+                                assert dj["ShardNo"] == 32 and len(dj["Cache"]) == 32
+                                ntpl = sum(len(sh["Templates"]) for sh in dj["Cache"])
+                                log[-1]["templates_in_file"] = ntpl
+                            except Exception as e:
+                                viol.append({"cases": [], "verdict": "with a large template cache (%d bulk datagrams of 16 templates; shutdown took %.1f s) the cache file left by the "
+                                             "collector is not complete / loadable: %s (file size %d)" % (sent, lat, str(e)[:120], size)})
+                        if not viol and col.start():
+                            with sink.lock:
+                                sink.lines.clear()
+                            for (proto, ip, tid), (data, pub) in acked.items():
+                                self.send(ip, col.ports[proto], data)
+                            for (proto, ip, tid), (data, pub) in acked.items():
+                                if sink.wait_for(lambda l: l == pub, 15.0) is None:
+                                    viol.append({"cases": [], "verdict": "after the restart that followed a shutdown with a large template cache, data for a template acknowledged before "
+                                                 "the signal (%s exporter %s, template %d) is not decoded: templates were lost" % (proto, ip, tid), "datagram": data.hex()}); break
+                            col.stop(signal.SIGKILL)
             finally:
                 sink.close()
                 if col.p and col.p.poll() is None:
